@@ -97,7 +97,9 @@ pub proof fn lemma_c18_roundtrip(t: PackageType, ns: Seq<char>, name: Seq<char>)
     }
 }
 '''),
-           dict(id='U-comb.builder_with_combined_name', file=F, fn='builder_with_combined_name', ctx=_P, wrap=_PW, properties=['C18'],
+           dict(id='U-comb.builder_with_combined_name', file=F, fn='builder_with_combined_name', ctx=_P, wrap=_PW,
+                # a builder entry point: the type's name rule applies to what it stores exactly as through Purl::builder (C08), the fields are as split (C09)
+                properties=['C18', 'C08', 'C09'],
                 contract='''        ensures r.package_type == package_type,
             r.parts.namespace@ == comb_split(package_type, namespaced_name.text()).0,
             r.parts.name@ == comb_split(package_type, namespaced_name.text()).1,
